@@ -41,6 +41,7 @@ def run(repo, chk, tier):
     if tables is not None:
         fw_family(repo, chk, tables)
         cross_preset(repo, chk, tables)
+    transformer_per_call(repo, chk)
 
 
 # -- 1 ------------------------------------------------------------------------------------------
@@ -585,6 +586,7 @@ def fw_family(repo, chk, tables):
     chk.expect(not missing, 'C12.4b', 'R6', m.relpath, f'FW_TRANSFORMERS contains DEFAULT_TRANSFORMERS ({len(base)} entries)', 'fw preset extends the default one', f'default entries missing/changed in the fw preset: {missing[:3]}')
 
 
+NAME_AGGS = {'max': 'max', 'min': 'min', 'mean': 'mean', 'median': 'median', 'std': 'std'}
 NAME_FUNCS = {'sqrt': 'numpy.sqrt', 'log': 'numpy.log', 'abs': 'numpy.abs', 'div': 'numpy.divide', 'pow': 'numpy.power', 'round': 'numpy.round'}
 
 
@@ -597,11 +599,24 @@ def _name_expr_term(m, name):
         return None
     if isinstance(e, ast.Name) and e.id in NAME_FUNCS:
         e = ast.Call(ast.Name(e.id, ast.Load()), [ast.Name('x', ast.Load())], [])
+    # a bare aggregate name is that aggregate of the column (div(x,max) = x / max(x)); round(e) rounds to 0 decimals
+    class _Agg(ast.NodeTransformer):
+        def visit_Call(self, node):
+            node.args = [self.visit(a) for a in node.args]
+            if isinstance(node.func, ast.Name) and node.func.id == 'round' and len(node.args) == 1:
+                node.args.append(ast.Constant(0))
+            return node
+
+        def visit_Name(self, node):
+            if node.id in NAME_AGGS:
+                return ast.Call(ast.Attribute(ast.Name('numpy', ast.Load()), NAME_AGGS[node.id], ast.Load()), [ast.Name('x', ast.Load())], [])
+            return node
+    e = ast.fix_missing_locations(_Agg().visit(e))
     names = {n.id for n in ast.walk(e) if isinstance(n, ast.Name)}
-    if not names <= set(NAME_FUNCS) | {'x'} or 'x' not in names:
+    if not names <= set(NAME_FUNCS) | {'x', 'numpy'} or 'x' not in names:
         return None
     for n in ast.walk(e):
-        if isinstance(n, ast.Call) and not (isinstance(n.func, ast.Name) and n.func.id in NAME_FUNCS):
+        if isinstance(n, ast.Call) and not (isinstance(n.func, ast.Name) and n.func.id in NAME_FUNCS) and not (isinstance(n.func, ast.Attribute) and n.func.attr in NAME_AGGS.values()):
             return None
         if isinstance(n, ast.Name) and n.id in NAME_FUNCS:
             pass
@@ -659,3 +674,52 @@ def show_src(fn, expr):
                 return T().visit(copy.deepcopy(d))
             return node
     return ast.unparse(T().visit(copy.deepcopy(expr)))
+
+
+# -- 7 the transformer applied to a batch is built for that call ---------------------------------------------------------------
+def transformer_per_call(repo, chk):
+    """C12.7 - enrich_with_transformations applies a FeatureTransformerGeneric built from ITS arguments (numeric column types, preset).  A transformer
+    taken from process-level state was built for an earlier call: its numeric columns and preset need not be this call's, so columns are emitted
+    under names whose formula was never applied to them / columns that should be transformed are not."""
+    CRm = 'outrank.core_ranking'
+    fn = repo.mod(CRm).funcs.get('enrich_with_transformations')
+    if fn is None:
+        chk.unsure('C12.7', 'R10', 'outrank/core_ranking.py', 'enrich_with_transformations', 'the step that applies the transformer was not found')
+        return
+    m = fn.module
+    cs = [c for c in calls(fn, attr='construct_new_features')]
+    if not cs:
+        chk.unsure('C12.7', 'R10', fn.site(), 'construct_new_features', 'no application of the transformer found')
+        return
+    module_state = {k for k, vs in m.assigns.items() if any(isinstance(v, (ast.Dict, ast.List, ast.Set, ast.Call)) or (isinstance(v, ast.Constant) and v.value is None) for v in vs)}
+    verdicts = []
+    for c in cs:
+        recv = c.func.value
+        sources = [recv]
+        seen = set()
+        work = [recv]
+        while work:
+            e = work.pop()
+            for x in ast.walk(e):
+                if isinstance(x, ast.Name) and x.id not in seen and x.id not in fn.params:
+                    seen.add(x.id)
+                    for n in own_nodes(fn.node):
+                        if isinstance(n, ast.Assign) and any(isinstance(t, ast.Name) and t.id == x.id for t in n.targets):
+                            sources.append(n.value)
+                            work.append(n.value)
+                        elif isinstance(n, ast.NamedExpr) and n.target.id == x.id:
+                            sources.append(n.value)
+                            work.append(n.value)
+        state = sorted({x.id for e in sources for x in ast.walk(e) if isinstance(x, ast.Name) and x.id in module_state and x.id not in fn.params})
+        cached = sorted({d.func.id if isinstance(d.func, ast.Name) else ast.unparse(d.func) for d_ in [fn.node] for d in d_.decorator_list if isinstance(d, ast.Call)} |
+                        {ast.unparse(d) for d in fn.node.decorator_list if not isinstance(d, ast.Call)})
+        ctor = [e for e in sources if isinstance(e, ast.Call) and (m.dotted(e.func) or '').endswith('FeatureTransformerGeneric')]
+        if state:
+            chk.bad('C12.7', 'R10', fn.site(c), ast.unparse(c)[:100], f'the transformer applied to this batch can come from the module-level {", ".join(state)}: it was built from the numeric column types (and preset) of an earlier call, '
+                    'so the numeric columns of THIS call are not the ones that are transformed')
+        elif any('cache' in d for d in cached):
+            chk.bad('C12.7', 'R10', fn.site(), ', '.join(cached), 'enrich_with_transformations is memoised: a later batch with equal-comparing arguments gets the frame computed for an earlier batch')
+        elif len(ctor) >= 1 and all(any(isinstance(x, ast.Name) and x.id in fn.params for x in ast.walk(e)) for e in ctor):
+            chk.ok('C12.7', 'R10', fn.site(c), ast.unparse(ctor[0]).replace('\n', ' ')[:100], 'the transformer is constructed in this call from its own arguments')
+        else:
+            chk.unsure('C12.7', 'R10', fn.site(c), ast.unparse(c)[:100], 'where the transformer applied to the batch is constructed could not be determined')
